@@ -35,7 +35,7 @@ func init() {
 	engine.Register(&engine.Check{
 		ID:         "C07",
 		Technique:  "exhaustive enumeration of hostile inbound frame sequences (small-scope fragment sequences, all single field mutations and truncations of valid packets, short noise) against the real stack in the deterministic world, worker-isolated; liveness probes after every sequence",
-		Rule:       "fragments: all sequences of length <=2 (thorough 3) over offset {0,8,16,65528} x length {0,8,16,24} x MF {0,1} x id {1,2}; mutations: for each of 15 valid templates (ARP, ICMPv4 echo / unreachable, UDP, TCP SYN/ACK/data/RST to listener, connection and closed port, IPv6 counterparts incl. NS/NA and packet-too-big) every length/offset/count/flag field set to each boundary value and every truncation length; noise: every byte string of length <=2 and fills of every length 0..80 under each ethertype; pairs of a 24-letter digest; the same runt/short frames through the repository's fd-based Ethernet endpoint over a socketpair; distinct = distinct sequence; all non-trivial",
+		Rule:       "fragments: all sequences of length <=2 (thorough 3) over offset {0,8,16,65528} x length {0,8,16,24} x MF {0,1} x id {1,2}; mutations: for each of 15 valid templates (ARP, ICMPv4 echo / unreachable, UDP, TCP SYN/ACK/data/RST to listener, connection and closed port, IPv6 counterparts incl. NS/NA and packet-too-big) every length/offset/count/flag field set to each boundary value and every truncation length; noise: every byte string of length <=2 and fills of every length 0..80 under each ethertype; each template and each of its field mutations delivered in two views cut at every byte (quick: mutations cut within bytes 20..104) and, for IPv4, as two fragments cut at every 8-byte boundary in both arrival orders; pairs of a 24-letter digest; the same runt/short frames through the repository's fd-based Ethernet endpoint over a socketpair; distinct = distinct sequence; all non-trivial",
 		Assumes:    []string{"inputs are injected at the link layer of one NIC; reassembly timeouts are not advanced inside a sequence"},
 		Jobs:       c07Jobs,
 		Run:        c07Run,
@@ -128,6 +128,7 @@ func (c *c07World) close() {
 type c07Frame struct {
 	Proto uint16
 	Data  []byte
+	Split int `json:",omitempty"` // > 0: delivered as two views cut at this byte
 }
 
 // inject delivers one hostile frame; a panic in the injecting goroutine is returned.
@@ -137,7 +138,11 @@ func (c *c07World) inject(f c07Frame) (perr string) {
 			perr = fmt.Sprintf("%v", e)
 		}
 	}()
-	c.r.w.Inject(c.r.n, 1, tcpip.NetworkProtocolNumber(f.Proto), f.Data, "\x02\x00\x00\x00\x00\x02", "\x02\x00\x00\x00\x00\x01")
+	if f.Split > 0 && f.Split < len(f.Data) {
+		c.r.w.InjectSplit(c.r.n, 1, tcpip.NetworkProtocolNumber(f.Proto), f.Data, f.Split, "\x02\x00\x00\x00\x00\x02", "\x02\x00\x00\x00\x00\x01")
+	} else {
+		c.r.w.Inject(c.r.n, 1, tcpip.NetworkProtocolNumber(f.Proto), f.Data, "\x02\x00\x00\x00\x00\x02", "\x02\x00\x00\x00\x00\x01")
+	}
 	c.r.Collect()
 	return ""
 }
@@ -222,7 +227,7 @@ func c07FragLetters() []c07Frame {
 			for _, n := range []int{0, 8, 16, 24} {
 				for _, mf := range []uint8{0, 1} {
 					payload := bytes.Repeat([]byte{byte(off/8 + n)}, n)
-					ls = append(ls, c07Frame{ref.EtherIPv4, ref.BuildIPv4([]byte(addrB4), []byte(addrA4), ref.ProtoUDP, id, mf, off, 64, payload)})
+					ls = append(ls, c07Frame{Proto: ref.EtherIPv4, Data: ref.BuildIPv4([]byte(addrB4), []byte(addrA4), ref.ProtoUDP, id, mf, off, 64, payload)})
 				}
 			}
 		}
@@ -307,7 +312,7 @@ func c07Mutations(t c07Template) []c07Frame {
 			if t.fix != nil {
 				t.fix(b)
 			}
-			out = append(out, c07Frame{t.proto, b})
+			out = append(out, c07Frame{Proto: t.proto, Data: b})
 			// the same mutation without repairing the header checksum
 			if t.fix != nil && off >= 20 {
 				continue
@@ -315,7 +320,28 @@ func c07Mutations(t c07Template) []c07Frame {
 		}
 	}
 	for l := 0; l <= len(t.data); l++ {
-		out = append(out, c07Frame{t.proto, append([]byte(nil), t.data[:l]...)})
+		out = append(out, c07Frame{Proto: t.proto, Data: append([]byte(nil), t.data[:l]...)})
+	}
+	return out
+}
+
+// c07Splits: a packet delivered in pieces. Every cut of the packet into two views (the way
+// a link endpoint with small receive buffers hands it over), and for IPv4 every cut of its
+// payload at an 8-byte boundary into two fragments, in both arrival orders (the reassembled
+// packet then reaches the transport layer as two views).
+func c07Splits(f c07Frame) [][]c07Frame {
+	var out [][]c07Frame
+	for k := 1; k < len(f.Data); k++ {
+		out = append(out, []c07Frame{{Proto: f.Proto, Data: f.Data, Split: k}})
+	}
+	if f.Proto == ref.EtherIPv4 && len(f.Data) > 28 && f.Data[0] == 0x45 && f.Data[6]&0x3f == 0 && f.Data[7] == 0 {
+		payload := f.Data[20:]
+		id := uint16(f.Data[4])<<8 | uint16(f.Data[5])
+		for k := 8; k < len(payload); k += 8 {
+			a := ref.BuildIPv4(f.Data[12:16], f.Data[16:20], f.Data[9], id, 1, 0, 64, payload[:k])
+			b := ref.BuildIPv4(f.Data[12:16], f.Data[16:20], f.Data[9], id, 0, k, 64, payload[k:])
+			out = append(out, []c07Frame{{Proto: f.Proto, Data: a}, {Proto: f.Proto, Data: b}}, []c07Frame{{Proto: f.Proto, Data: b}, {Proto: f.Proto, Data: a}})
+		}
 	}
 	return out
 }
@@ -323,18 +349,18 @@ func c07Mutations(t c07Template) []c07Frame {
 func c07Noise() []c07Frame {
 	var out []c07Frame
 	for _, et := range []uint16{ref.EtherIPv4, ref.EtherIPv6, ref.EtherARP, 0} {
-		out = append(out, c07Frame{et, nil})
+		out = append(out, c07Frame{Proto: et, Data: nil})
 		for a := 0; a < 256; a++ {
-			out = append(out, c07Frame{et, []byte{byte(a)}})
+			out = append(out, c07Frame{Proto: et, Data: []byte{byte(a)}})
 		}
 		for a := 0; a < 256; a++ {
 			for _, b := range []byte{0x00, 0x14, 0x45, 0xff} {
-				out = append(out, c07Frame{et, []byte{byte(a), b}})
+				out = append(out, c07Frame{Proto: et, Data: []byte{byte(a), b}})
 			}
 		}
 		for l := 0; l <= 80; l++ {
 			for _, fill := range []byte{0x00, 0xff, 0x45, 0x60} {
-				out = append(out, c07Frame{et, bytes.Repeat([]byte{fill}, l)})
+				out = append(out, c07Frame{Proto: et, Data: bytes.Repeat([]byte{fill}, l)})
 			}
 		}
 	}
@@ -515,7 +541,7 @@ func c07FdBased() []c07Fail {
 			syscall.Write(fds[1], frame)
 			n++
 			if !answered(n) {
-				fails = append(fails, c07Fail{"fdbased-dispatch-stopped", fmt.Sprintf("after a %d-byte frame (fill %#02x) on the fd-based Ethernet endpoint the stack no longer answers echo requests: the dispatch loop has stopped", l, fill), []c07Frame{{0, frame}}})
+				fails = append(fails, c07Fail{"fdbased-dispatch-stopped", fmt.Sprintf("after a %d-byte frame (fill %#02x) on the fd-based Ethernet endpoint the stack no longer answers echo requests: the dispatch loop has stopped", l, fill), []c07Frame{{Proto: 0, Data: frame}}})
 				return fails
 			}
 		}
@@ -535,6 +561,9 @@ func c07Jobs(tier string) []string {
 	}
 	for i := 0; i < 8; i++ {
 		jobs = append(jobs, fmt.Sprintf("digest:%d/8", i))
+	}
+	for i := 0; i < 15; i++ {
+		jobs = append(jobs, fmt.Sprintf("split:%d", i))
 	}
 	return jobs
 }
@@ -581,6 +610,31 @@ func c07Seqs(job, tier string) ([][]c07Frame, string) {
 			seqs = append(seqs, []c07Frame{m})
 		}
 		return seqs, "single field mutations and truncations of template " + ts[ti].name
+	case "split":
+		var ti int
+		fmt.Sscan(parts[1], &ti)
+		c, err := c07NewWorld()
+		if err != nil {
+			return nil, "harness: " + err.Error()
+		}
+		ts := c07Templates(c)
+		c.close()
+		if ti >= len(ts) {
+			return nil, ""
+		}
+		seqs = append(seqs, c07Splits(c07Frame{Proto: ts[ti].proto, Data: ts[ti].data})...)
+		// every field mutation as well: quick cuts it at the boundaries of the first 64 bytes
+		// after the network header, thorough everywhere
+		ms := c07Mutations(ts[ti])
+		for _, m := range ms[:len(ms)-len(ts[ti].data)-1] {
+			for _, sq := range c07Splits(m) {
+				if tier != "thorough" && len(sq) == 1 && (sq[0].Split < 20 || sq[0].Split > 104) {
+					continue
+				}
+				seqs = append(seqs, sq)
+			}
+		}
+		return seqs, "template " + ts[ti].name + " and its field mutations delivered in two views / two IPv4 fragments at every cut"
 	case "noise":
 		for _, f := range c07Noise() {
 			seqs = append(seqs, []c07Frame{f})
